@@ -50,6 +50,9 @@ func genIsoOpts(t *rapid.T) mk.IsoOpts {
 
 func genSqOpts(t *rapid.T) mk.SqOpts {
 	o := mk.SqOpts{Comp: rapid.SampledFrom([]string{"none", "gzip", "gzip", "xz", "lz4", "zstd"}).Draw(t, "comp")}
+	if o.Comp == "gzip" {
+		o.Level = rapid.SampledFrom([]int{0, 1, 6, 6, 9}).Draw(t, "gzipLevel")
+	}
 	if rapid.IntRange(0, 2).Draw(t, "nofrag") == 0 {
 		o.NoFragments = true
 	}
